@@ -402,6 +402,10 @@ def run(model, tier="quick"):
     res.ob("R-INPUT", f"fills shrink the visible book only by rebinding the cell to a NEW list: no in-place mutation reaches a level "
                       f"list of the loaded data (parameter-mutating functions: {sorted(mutating)})", "demeter/deribit/", ok=_nf == 0)
     res.floor("functions_mutating_a_parameter", len(mutating), 1)
+    from ..rules.fresh import fresh_rule
+    if "R-FRESH" not in res.rules:
+        res.rules.append("R-FRESH")
+    fresh_rule(model, res, scope=('demeter/deribit/',))
     res.assumptions = ["order books are lists of [price, size] sorted best-first (data)",
                        "round_decimal / get_new_order_list / _find_available_orders are compared as opaque helpers here "
                        "(round_decimal is checked under C16)"]
